@@ -78,6 +78,10 @@ type v1Case struct {
 	// First is the entry point that is called first on the fresh instance (ntresponse, hash, string,
 	// lmresponse); the others follow in the fixed order, then all of them are called a second time.
 	First string `json:"first,omitempty"`
+	// Spare: the NT hash and the challenge are handed over as the first bytes of a longer buffer of the caller's
+	// (len 16 / 8, capacity that much larger): a record read from a file, a field of a larger message. The bytes
+	// behind them are the caller's too. 0: slices of exactly their length.
+	Spare int `json:"spare_capacity,omitempty"`
 }
 
 func (c v1Case) ctor() string {
@@ -162,7 +166,17 @@ func exactCap(b []byte) []byte { o := make([]byte, len(b)); copy(o, b); return o
 var v1EntryPoints = []string{"ntresponse", "hash", "string", "lmresponse"}
 
 // newV1 makes the instance the case describes and says which NT hash it stands for.
-func newV1(ctor, password string, ntHash, challenge []byte) (inst *ntlmv1.NTLMv1, nt [16]byte, err error) {
+func newV1(ctor, password string, ntHash, challenge []byte, spare ...int) (inst *ntlmv1.NTLMv1, nt [16]byte, err error) {
+	if len(spare) > 0 && spare[0] > 0 && ctor == "nthash" {
+		copy(nt[:], ntHash)
+		// the caller's buffer: this credential's hash, the next credential's hash (here: the inverted one), then
+		// spare[0] more bytes
+		hb := withSpare(append(append([]byte{}, ntHash...), invert(ntHash)...), spare[0])
+		cb := withSpare(challenge, spare[0])
+		inst, err = ntlmv1.NewNTLMv1WithNTHash("DOM", "user", hb[:len(ntHash)], cb[:len(challenge)])
+		lent = hb
+		return
+	}
 	switch ctor {
 	case "password":
 		nt = refcrypto.NT(password)
@@ -181,10 +195,25 @@ func newV1(ctor, password string, ntHash, challenge []byte) (inst *ntlmv1.NTLMv1
 
 var errBadCtor = errors.New("unknown constructor")
 
+// withSpare returns b as the head of a buffer with n more bytes of the caller's behind it.
+func withSpare(b []byte, n int) []byte {
+	o := make([]byte, len(b)+n)
+	copy(o, b)
+	for i := len(b); i < len(o); i++ {
+		o[i] = byte(0xA5 + i)
+	}
+	return o
+}
+
+// lent: the buffer whose first 16 bytes were handed to the constructor as the NT hash in a case with spare capacity:
+// the hash, the next credential's hash, spare bytes (nil otherwise; one case at a time).
+var lent []byte
+
 func checkV1(c v1Case) []vf.Finding {
 	var fs []vf.Finding
 	ctor := c.ctor()
-	inst, nt, err := newV1(ctor, c.Password, c.NTHash, c.Challenge)
+	lent = nil
+	inst, nt, err := newV1(ctor, c.Password, c.NTHash, c.Challenge, c.Spare)
 	if err == errBadCtor {
 		return []vf.Finding{vf.F("harness", "bad-case", "constructor %q", c.Ctor)}
 	}
@@ -264,6 +293,20 @@ func checkV1(c v1Case) []vf.Finding {
 	if !bytes.Equal(inst.ServerChallenge, c.Challenge) {
 		fs = append(fs, vf.F("NTLMv1", "server-challenge-modified", "%x", inst.ServerChallenge))
 	}
+	// "for every credential": the caller keeps its NT hashes one after the other in one buffer (a dump, a table). After
+	// the responses for this one have been computed, the next one, passed the same way, still yields DESL of the hash
+	// the caller stored there
+	if lent != nil {
+		next := invert(c.NTHash)
+		instB, err := ntlmv1.NewNTLMv1WithNTHash("DOM", "user", lent[16:32], exactCap(c.Challenge))
+		if err != nil {
+			return []vf.Finding{vf.F("ntlmv1.New", "valid-input-rejected", "next credential of the buffer: %v", err)}
+		}
+		wantB := refcrypto.DESL(next, c.Challenge)
+		if got, err := instB.NTResponse(); err != nil || !bytes.Equal(got, wantB) {
+			fs = append(fs, vf.F("NTLMv1", "adjacent-credential-corrupted", "%s: the hash was passed as the first 16 bytes of a buffer that holds the next credential's hash %x behind it (and %d more bytes); after the calls %v (twice) on the first credential the buffer holds %x there, and the response for the next credential is %x (err %v), want %x", what, next, c.Spare, order, lent[16:32], got, err, wantB))
+		}
+	}
 	if len(fs) > 0 {
 		return fs
 	}
@@ -331,6 +374,10 @@ func TestV1(t *testing.T) {
 				copy(c.NTHash[14:], []byte{0, 0})
 			case 1:
 				copy(c.NTHash[14:], []byte{0xFF, 0xFF})
+			}
+			if rapid.IntRange(0, 2).Draw(t, "spareClass") == 0 {
+				c.Spare = rapid.SampledFrom([]int{1, 8, 64}).Draw(t, "spare")
+				s.Class("hash-and-challenge-with-spare-capacity")
 			}
 		}
 		s.Class("ctor:" + c.Ctor)
